@@ -30,6 +30,16 @@ def run(F, chk):
     T4 = chk.rule('T4', 'closures receiving the write handle leave it clean (every update is followed by refresh before return)')
     stages = lcstage.find_stage(F)
     T1.floor('lifecycle stage functions', len(stages), 1)
+    # two conditions shared with C05/C07 that are also necessary here: a delivered message must carry the id of a *published*
+    # lifecycle, so (Q5) no message of a still buffered lifecycle leaves the queue, and (P3) after a merge no queued message
+    # keeps the id of the merged (never or no longer published) lifecycle
+    import c05, c07
+    Q5 = chk.rule('Q5', 'inside the receive loop a message leaves the queue only when its lifecycle is known not to be buffered (so it has been published)')
+    P3 = chk.rule('P3', 'after every merge the whole queue and the current message are relabelled (no delivered message carries the id of an unpublished, merged lifecycle)')
+    for b in stages:
+        st0 = lcstage.Stage(F, b)
+        c05.check_queue_release(st0, Q5)
+        c07.check_relabel(F, st0, P3)
     for b in stages:
         st = lcstage.Stage(F, b)
         cfg = st.cfg
